@@ -12,6 +12,8 @@ import (
 	"path/filepath"
 	"strings"
 	"time"
+
+	"golang.org/x/tools/go/ssa"
 )
 
 var propDefs = map[string]*PropDef{}
@@ -498,6 +500,114 @@ func c10Discipline(run *PropRun) {
 			continue
 		}
 		RunDiscipline(run, e, lc)
+	}
+	// Suspend, Resume and the shutdown run one at a time: disengage gives up the screen lock between its two halves
+	// (it has to, the goroutines it waits for take that lock), so without a lock of their own a concurrent Resume
+	// re-arms the WaitGroup disengage is waiting on (runtime fault "WaitGroup is reused before previous Wait has
+	// returned", or a Suspend that never returns), and Fini closes the tty while Suspend still has to write to it
+	{
+		field := map[string]string{}
+		for fname, inner := range map[string][]string{"Suspend": {"disengage"}, "Resume": {"engage"}, "finish": {"finalize"}} {
+			fn := e.FindFunc(modPath + ".(*tScreen)." + fname)
+			if fn == nil {
+				continue
+			}
+			var lockB *ssa.BasicBlock
+			lockI := -1
+			lockField := ""
+			for _, b := range fn.Blocks {
+				for i, in := range b.Instrs {
+					c, ok := in.(*ssa.Call)
+					if !ok {
+						continue
+					}
+					callee := c.Common().StaticCallee()
+					if isMutexMethod(callee, "Lock") && !screenLockArg(c.Common()) && lockB == nil {
+						if fa, ok := c.Common().Args[0].(*ssa.FieldAddr); ok {
+							st := under(fa.X.Type().(*types.Pointer).Elem()).(*types.Struct)
+							lockB, lockI, lockField = b, i, st.Field(fa.Field).Name()
+						}
+					}
+					if callee != nil {
+						for _, n := range inner {
+							if callee.Name() == n && callee.Pkg != nil && callee.Pkg.Pkg.Path() == modPath {
+								if lockB != nil && (lockB == b && lockI < i || lockB != b && lockB.Dominates(b)) {
+									field[fname] = lockField
+								} else {
+									field[fname] = ""
+								}
+							}
+						}
+					}
+				}
+			}
+		}
+		ok := field["Suspend"] != "" && field["Suspend"] == field["Resume"] && field["Resume"] == field["finish"]
+		g := run.AddObligation("tScreen/lifecycle-calls-serialised", "discipline", BoolT(ok),
+			fmt.Sprintf("Suspend, Resume and the shutdown take one and the same lifecycle mutex (not the screen lock, which disengage has to drop while it waits) before they engage / disengage / finalize (found: Suspend %q, Resume %q, finish %q)", field["Suspend"], field["Resume"], field["finish"]))
+		g.ReplayGo = replayTest("tcell", []string{"sync", "time", modPath + "/terminfo", "_ " + modPath + "/terminfo/base"}, `
+	ti, err := terminfo.LookupTerminfo("xterm")
+	if err != nil { fail("no xterm description: %v", err); return }
+	tty := &c10ParkTty{wake: make(chan struct{}, 4), parked: make(chan struct{}), release: make(chan struct{})}
+	s, err := NewTerminfoScreenFromTtyTerminfo(tty, ti)
+	if err != nil { fail("new screen: %v", err); return }
+	if err := s.Init(); err != nil { fail("init: %v", err); return }
+	tty.arm()
+	suspended := make(chan struct{})
+	go func() { s.Suspend(); close(suspended) }()
+	<-tty.parked // Suspend has closed the stop channel, dropped the screen lock and is about to wait for the goroutines
+	resumed := make(chan error, 1)
+	go func() { resumed <- s.Resume() }()
+	select {
+	case err := <-resumed:
+		fail("Resume() returned %v while Suspend() was still tearing the screen down: the two overlap", err)
+		close(tty.release)
+		return
+	case <-time.After(200 * time.Millisecond):
+	}
+	close(tty.release)
+	select {
+	case <-suspended:
+	case <-time.After(2 * time.Second):
+		fail("Suspend() did not return within 2s of being released (it waits for goroutines a concurrent Resume started)")
+		return
+	}
+	select {
+	case <-resumed:
+	case <-time.After(2 * time.Second):
+		fail("Resume() did not return after Suspend() finished")
+		return
+	}
+	s.Fini()`) + `
+type c10ParkTty struct {
+	mu      sync.Mutex
+	armed   bool
+	wake    chan struct{}
+	parked  chan struct{}
+	release chan struct{}
+}
+
+func (t *c10ParkTty) arm()                            { t.mu.Lock(); t.armed = true; t.mu.Unlock() }
+func (t *c10ParkTty) Read(p []byte) (int, error)      { <-t.wake; return 0, nil }
+func (t *c10ParkTty) Write(p []byte) (int, error)     { return len(p), nil }
+func (t *c10ParkTty) Close() error                    { return nil }
+func (t *c10ParkTty) Start() error                    { return nil }
+func (t *c10ParkTty) Stop() error                     { return nil }
+func (t *c10ParkTty) Drain() error                    { select { case t.wake <- struct{}{}: default: }; return nil }
+func (t *c10ParkTty) WindowSize() (WindowSize, error) { return WindowSize{Width: 80, Height: 24}, nil }
+func (t *c10ParkTty) NotifyResize(cb func()) {
+	t.mu.Lock()
+	park := t.armed && cb == nil
+	if park {
+		t.armed = false
+	}
+	t.mu.Unlock()
+	if park {
+		close(t.parked)
+		<-t.release
+	}
+}
+`
 	}
 	// hand-written deterministic replays (race detector) for the access sites of the public methods
 	raceBody := func(a, b string) string {
